@@ -167,55 +167,4 @@ theorem distributeStubs_ok {chain pool samples : Nat} : ∀ (ps : List (Addr × 
         unfold fullSum at i2
         exact ⟨i1, by omega, by omega, i4, by omega, i6.trans hcd⟩
 
-/-- the recorded percents of a committee never exceed 100 per sample -/
-def PercentsOK (L : Ledger) : Prop := ∀ d ∈ L.committeesData, percentSum d.percents ≤ 100 * d.samples
-
-/-- one committee: pays out at most the pool and burns exactly the remainder -/
-theorem distributeFor_burns {L L' : Ledger} {d : CommitteeData} (hi : InvSupply L) (hd : percentSum d.percents ≤ 100 * d.samples)
-    (h : distributeFor L d = .ok L') : Burns L L' := by
-  unfold distributeFor at h
-  split at h
-  · cases h; exact Burns.refl L
-  · dsimp only at h
-    cases hds : distributeStubs L (poolGet L d.chainId) d.samples d.percents 0 with
-    | error e => rw [hds] at h; cases h
-    | ok r =>
-      obtain ⟨tot, L1⟩ := r
-      rw [hds] at h
-      dsimp only at h
-      have hfs := Nat.le_trans (fullSum_le d.percents (poolGet L d.chainId) d.samples) (fullOf_le_pool hd)
-      have hpl := poolGet_le L d.chainId
-      obtain ⟨i1, i2⟩ := hi
-      obtain ⟨_, htot, ht, hp, hb, _⟩ := distributeStubs_ok (chain := d.chainId) d.percents L L1 0 tot rfl (by
-        unfold bal at i1 ⊢; omega) hds
-      have hlt : poolGet L d.chainId < U64 := by unfold bal at i1; omega
-      have hburn : (poolGet L d.chainId + U64 - tot) % U64 = poolGet L d.chainId - tot := by
-        have : poolGet L d.chainId + U64 - tot = (poolGet L d.chainId - tot) + U64 := by omega
-        rw [this, Nat.add_mod_right, Nat.mod_eq_of_lt (by omega)]
-      rw [hburn] at h
-      cases h2 : subFromTotal L1 (poolGet L d.chainId - tot) with
-      | error e => rw [h2] at h; cases h
-      | ok L2 =>
-        rw [h2] at h
-        cases h
-        obtain ⟨hx, rfl⟩ := subFromTotal_ok h2
-        refine ⟨poolGet L d.chainId - tot, ?_⟩
-        generalize hB : poolGet L d.chainId - tot = B at *
-        have s := putCommitteeData_sameBal (poolPut { L1 with supply := { L1.supply with total := L1.supply.total - B } } d.chainId 0)
-          { chainId := d.chainId, lastRootHeight := d.lastRootHeight, lastChainHeight := d.lastChainHeight }
-        have hpp := poolSum_poolPut { L1 with supply := { L1.supply with total := L1.supply.total - B } } d.chainId 0
-        have hpg : poolGet { L1 with supply := { L1.supply with total := L1.supply.total - B } } d.chainId = poolGet L d.chainId := hp
-        rw [hpg] at hpp
-        have e1 := s.bal_eq; have e2 := s.total
-        have e3 : (poolPut { L1 with supply := { L1.supply with total := L1.supply.total - B } } d.chainId 0).supply.total = L1.supply.total - B := rfl
-        have ea : accSum (poolPut { L1 with supply := { L1.supply with total := L1.supply.total - B } } d.chainId 0) = accSum L1 := rfl
-        have es : stakeSum (poolPut { L1 with supply := { L1.supply with total := L1.supply.total - B } } d.chainId 0) = stakeSum L1 := rfl
-        have ep : poolSum { L1 with supply := { L1.supply with total := L1.supply.total - B } } = poolSum L1 := rfl
-        rw [ep] at hpp
-        refine ⟨by rw [e2, e3]; omega, ?_⟩
-        rw [e1]
-        unfold bal at hb ⊢
-        rw [ea, es]
-        omega
-
 end Canopy.Ledger
